@@ -17,6 +17,14 @@ thread_local! {
     static LOG_ON: RefCell<bool> = const { RefCell::new(false) };
     static YIELD_RNG: RefCell<u64> = const { RefCell::new(0) };
     static MAILBOX_CAP: RefCell<usize> = const { RefCell::new(0) };
+    static INJECTED: std::cell::Cell<bool> = const { std::cell::Cell::new(false) };
+}
+
+/// Reads and clears the mark that `point()` sets right before each of its extra yields. A future
+/// whose poll returned `Pending` with the mark set is suspended at an injected yield, i.e. at a
+/// place where the real code cannot be suspended; the harness must not abandon it there.
+pub fn take_injected_flag() -> bool {
+    INJECTED.with(|f| f.replace(false))
 }
 
 /// Appends an event to the thread-local event log (only while logging is enabled).
@@ -71,6 +79,7 @@ pub async fn point() {
         z % 4
     });
     for _ in 0..n {
+        INJECTED.with(|f| f.set(true));
         tokio::task::yield_now().await;
     }
 }
